@@ -346,6 +346,21 @@ func c16CodecGen(r *vh.Rand, tier string, n int, emit func(any)) {
 			}
 		}
 	}
+	// a single-entry index whose entry is shortened by d bytes with its announced size adjusted: the inner
+	// deserializers (strings, aspect, rune set, script and lang sets) face every truncation of their own data
+	for _, v := range []int{2} {
+		ix := c16SmallIndex(r, v)
+		payload, _ := fs.VerifSerializePayload(ix)
+		if len(ix) == 1 && len(payload) > 10 {
+			maxd := len(payload) - 10
+			if !thorough && maxd > 120 {
+				maxd = 120
+			}
+			for d := 1; d <= maxd; d++ {
+				emit(c16CodecInput{Mode: 1, Index: ix, Op: "cutentry", Pos: d})
+			}
+		}
+	}
 	if !thorough { // corruptions of a two-file index at the positions of the structural fields
 		ix := c16SmallIndex(r, 3)
 		payload, _ := fs.VerifSerializePayload(ix)
@@ -385,6 +400,16 @@ func c16CodecGen(r *vh.Rand, tier string, n int, emit func(any)) {
 
 func c16Derive(base []byte, in c16CodecInput) (out []byte, expect int64) {
 	switch in.Op {
+	case "cutentry": // drop the last Pos bytes of the (single) entry and announce the shorter size
+		d := in.Pos
+		if len(base) < 10+d {
+			return append([]byte(nil), base...), 0
+		}
+		out = append([]byte(nil), base[:len(base)-d]...)
+		size := uint32(out[6])<<24 | uint32(out[7])<<16 | uint32(out[8])<<8 | uint32(out[9])
+		size -= uint32(d)
+		out[6], out[7], out[8], out[9] = byte(size>>24), byte(size>>16), byte(size>>8), byte(size)
+		return out, 0
 	case "prefix":
 		k := in.Pos
 		if k > len(base) {
